@@ -36,6 +36,10 @@ HARNESS = {
                about='Hypothesis program generator + emitter (real protothreads.h, gcc -O0) + reference interpreter'),
     'tsan': dict(kind='script', script='tsan/tsan_soak.py', interp='python3',
                  about='E6: real pthreads under the real ThreadSanitizer (gcc -fsanitize=thread, halt_on_error=1); thorough tier only, supplementary'),
+    'conconc': dict(cpp=['h/h_conconc.cpp'], c=['adp/adp_console.c', 'isched/vrt.c'],
+                    repo=['librfn/console.c', 'librfn/fibre.c', 'librfn/messageq.c', 'librfn/list.c', 'librfn/ringbuf.c', 'librfn/util.c', 'librfn/posix/time_posix.c'],
+                    asan=False, repo_cflags=['-fsanitize=thread'], libs=['-ldl', '-rdynamic'],
+                    about='isched: console fibre fed by console_putchar from interrupt/thread context (console.c, ringbuf.c, fibre.c instrumented)'),
     'list': dict(cpp=['h/h_list.cpp'], c=['adp/adp_list.c'], repo=['librfn/list.c']),
 }
 
@@ -434,12 +438,18 @@ PROPS = {
             dict(h='fibconc', mode='enum', what='THREADS, script 3, event sender + run_atomic thread, <=2 pre-emptions',
                  params=dict(mode=0, script=3, oracle=6, handlers=2, evdepth=1, h0=3, h1=1, preempt=2), workers=4,
                  common=dict(split=3, maxruns=1500000), thorough=dict(params=dict(preempt=3), maxruns=6000000)),
+            dict(h='conconc', mode='enum', what='console fed by 2 interrupt-context injectors, every access, all placements', params=dict(mode=1, injectors=2, every_access=1, passes=3, oracle=6),
+                 workers=4, common=dict(split=3, maxruns=1500000)),
+            dict(h='conconc', mode='enum', what='console fed by an injector thread, <=2 pre-emptions', params=dict(mode=0, passes=3, preempt=2, oracle=6),
+                 workers=2, common=dict(split=3, maxruns=1500000)),
+            dict(h='conconc', mode='rc', what='console fed from interrupt / thread context, random', params=dict(oracle=6),
+                 quick=dict(cases=20000, len=300), thorough=dict(cases=1000000, len=300)),
             dict(h='fibconc', mode='rc', what='random scripts, handlers, placements, both modes', params=dict(oracle=6),
                  quick=dict(cases=60000, len=500), thorough=dict(cases=3000000, len=500)),
         ],
         require={'interrupt-inside-fibre_scheduler_next': 1000, 'interrupt-inside-fibre_run': 200, 'interrupt-inside-fibre_kill': 100,
                  'interrupt-inside-fibre_run_atomic': 50, 'interrupt-nested-between-claim-and-send': 100, 'event-queue-full-path': 500,
-                 'event-delivered': 1000, 'threads-mode': 1000},
+                 'event-delivered': 1000, 'threads-mode': 1000, 'console-line-delivered': 1000, 'console-input-interleaved-with-scheduler': 1000},
         assumptions=['"is dispatched by a subsequent call" is checked as bounded eventuality: within 4*(3+requests)+8+yields passes after the last interrupt',
                      'a fibre_kill that returns after the request completed may withdraw it (the statement says "a later fibre_kill")',
                      'event order is asserted only where it is unambiguous (A sent completely before B was claimed)'],
@@ -470,6 +480,7 @@ PROPS = {
             dict(h='fibconc', mode='enum', what='fibres, ISR script 4 (request queue full), every access', params=dict(mode=1, script=4, every_access=1, oracle=7, handlers=2, evdepth=1, h0=1, h1=2),
                  workers=2, common=dict(split=3, maxruns=1500000)),
             dict(h='fibconc', mode='rc', what='fibres, random, both modes', params=dict(oracle=7), quick=dict(cases=40000, len=500), thorough=dict(cases=2000000, len=500)),
+            dict(h='conconc', mode='rc', what='console fed from interrupt / thread context, random', params=dict(oracle=7), quick=dict(cases=20000, len=300), thorough=dict(cases=1000000, len=300)),
             dict(h='tsan', mode='script', what='real pthreads under the real ThreadSanitizer (8 processes x 20 s)', tiers=('thorough',), workers=8,
                  thorough=dict(params=dict(ms=20000), timeout=900)),
         ],
